@@ -19,7 +19,7 @@ theorem tauActions_isTau {s : State} {a : Action} (h : a ∈ tauActions s) : a.i
   simp only [tauActions, List.mem_append, List.mem_flatten, List.mem_map] at h
   rcases h with ⟨l, ⟨x, _, rfl⟩, ha⟩ | ⟨l, ⟨k, _, rfl⟩, ha⟩
   · simp only [List.mem_cons, List.not_mem_nil, or_false] at ha
-    rcases ha with rfl | rfl <;> rfl
+    rcases ha with rfl | rfl | rfl | rfl <;> rfl
   · simp only [List.mem_cons, List.not_mem_nil, or_false] at ha
     rcases ha with rfl | rfl | rfl | rfl | rfl | rfl | rfl | rfl | rfl | rfl | rfl | rfl | rfl | rfl |
       rfl | rfl | rfl | rfl | rfl | rfl | rfl | rfl | rfl <;> rfl
